@@ -764,15 +764,21 @@ if parallel.use_mpi():
         worker_config = WorkerManager(max_workers, 0)
         worker_comm = worker_config.get_comm()
 
+        writer_error = None
         if rank == worker_config.writer_rank:
-            writer_task(
-                cache_directory=path,
-                chunk_info=reader.copy_chunk_info(drop_patch_ids=True),
-                overwrite=overwrite,
-                buffersize=buffersize,
-                num_expected=None if patch_centers is None else len(patch_centers),
-                num_senders=len(worker_config.active_ranks),
-            )
+            try:
+                writer_task(
+                    cache_directory=path,
+                    chunk_info=reader.copy_chunk_info(drop_patch_ids=True),
+                    overwrite=overwrite,
+                    buffersize=buffersize,
+                    num_expected=(
+                        None if patch_centers is None else len(patch_centers)
+                    ),
+                    num_senders=len(worker_config.active_ranks),
+                )
+            except Exception as err:
+                writer_error = err  # raised on all ranks below
 
         elif rank in worker_config.active_ranks:
             if patch_centers is not None:
@@ -789,6 +795,12 @@ if parallel.use_mpi():
 
             worker_comm.Free()
 
+        # a failure of the writer must not leave the other ranks waiting
+        writer_error = parallel.COMM.bcast(
+            writer_error, root=worker_config.writer_rank
+        )
+        if writer_error is not None:
+            raise writer_error
         parallel.COMM.Barrier()
 
 else:
